@@ -65,12 +65,38 @@ func (f *frame) call(t *ssa.Call) {
 		return
 	}
 	fc := x.W.ContractFor(callee)
+	if fc != nil && fc.Opaque {
+		if fc.HasModifies && !fc.ModAll {
+			// opaque with a declared frame: only the listed locations are havoc'd (the frame is an assumption)
+			for i := range args {
+				args[i] = f.materialize(args[i], callee.Params[i].Type())
+			}
+			pre := x.calleeCtx(callee, fc, args, f.cur.heap, f.cur.heap)
+			targets, err := pre.evalModTargets(fc.Modifies)
+			if err != nil {
+				abort("modifies of %s: %v", callee.Name(), err)
+			}
+			x.note("ASSUMED (not proved) frame of opaque %s: modifies only %s", funcDisplayName(callee), fc.SigText)
+			after := f.cur.heap
+			for _, mt := range targets {
+				after = x.havocTarget(after, mt)
+			}
+			nx := x.S.Declare("next", SInt)
+			x.S.Assert(IntLt(nx, IntConst(1<<39)))
+			x.S.Assert(IntLe(f.cur.heap.next, nx))
+			f.cur.heap = x.H.WithNext(after, nx)
+			f.setFreshResult(t)
+			return
+		}
+		f.havocCall(t, "callee declared opaque: "+funcDisplayName(callee), args, true)
+		return
+	}
 	if fc != nil && !fc.Inline {
 		f.callByContract(t, callee, fc, args)
 		return
 	}
 	inModule := callee.Pkg != nil && strings.HasPrefix(callee.Pkg.Pkg.Path(), modulePath)
-	if inModule && callee.Blocks != nil && f.depth < x.inlineMax && !f.onStack(callee) && (fc != nil || instrCount(callee) <= 220) {
+	if inModule && callee.Blocks != nil && f.depth < x.inlineMax && !f.onStack(callee) && (fc != nil || instrCount(callee) <= 220) && inlinable(callee) {
 		f.inlineCall(t, callee, fc, args)
 		return
 	}
@@ -498,6 +524,11 @@ func (f *frame) ifaceContract(t *ssa.Call, fc *FuncContract, recv Val, args []Va
 	}
 	if fc.ModAll {
 		f.cur.heap = x.H.HavocAll(before)
+	} else {
+		nx := x.S.Declare("next", SInt)
+		x.S.Assert(IntLt(nx, IntConst(1<<39)))
+		x.S.Assert(IntLe(before.next, nx))
+		f.cur.heap = x.H.WithNext(before, nx)
 	}
 	res := f.setFreshResult(t)
 	post := mk(f.cur.heap, before)
@@ -793,4 +824,48 @@ func isPureExternal(fn *ssa.Function) bool {
 		return true
 	}
 	return false
+}
+
+var inlinableCache = map[*ssa.Function]bool{}
+
+// inlinable: the body uses only instructions the executor models (otherwise the call is havoc'd instead).
+func inlinable(fn *ssa.Function) bool {
+	if v, ok := inlinableCache[fn]; ok {
+		return v
+	}
+	ok := true
+	for _, b := range fn.Blocks {
+		for _, in := range b.Instrs {
+			switch t := in.(type) {
+			case *ssa.Range, *ssa.Next, *ssa.Go, *ssa.Select, *ssa.Send, *ssa.MakeChan, *ssa.SliceToArrayPointer:
+				ok = false
+			case *ssa.Call:
+				// reflective code is opaque to the executor
+				if cal := t.Call.StaticCallee(); cal != nil && cal.Pkg != nil && cal.Pkg.Pkg.Path() == "reflect" {
+					ok = false
+				}
+				if strings.Contains(t.Call.Value.Type().String(), "reflect.") {
+					ok = false
+				}
+			case *ssa.Defer:
+				if !isSyncNoop(t.Call) {
+					ok = false
+				}
+			case *ssa.UnOp:
+				if t.Op == token.ARROW {
+					ok = false
+				}
+			case *ssa.BinOp:
+				if isFloat(t.X.Type()) {
+					ok = false
+				}
+			case *ssa.Convert:
+				if isFloat(t.Type()) || isFloat(t.X.Type()) {
+					ok = false
+				}
+			}
+		}
+	}
+	inlinableCache[fn] = ok
+	return ok
 }
